@@ -4,7 +4,7 @@
      fmt_g P     = printf("%.Pg")          (cout with precision 10; record codec with 17)
      fmt_f6      = printf("%f")            (std::to_string)
      strtod_pfx  = strtod                  (String::toReal, std::stod, istream >> double)  *)
-From Coq Require Import Floats.SpecFloat.
+From Coq Require Export Floats.SpecFloat.
 From PE2 Require Export Base.
 Local Open Scope Z_scope.
 
